@@ -13,6 +13,7 @@ import PynnVerif.Driver.Connect
 import PynnVerif.Driver.Metrics
 import PynnVerif.Driver.Metrics2
 import PynnVerif.Driver.GenM
+import PynnVerif.Driver.GenK
 import PynnVerif.Driver.GenMetrics
 /-!
 # Line-protocol driver over the executable model
@@ -34,7 +35,7 @@ structure St where
   row : Row F := #[]
 
 /-- stateless area handlers (first one that answers wins) -/
-def handlers : List Handler := [handleDescent, handleSparse, handleIndex, handleAlias, handleTransformer, handleRPTree, handleSearch, handleXlate, handleTransport, handleDiversify, handleConnect, handleMetrics, handleMetrics2, handleGenM, handleGenMetrics]
+def handlers : List Handler := [handleDescent, handleSparse, handleIndex, handleAlias, handleTransformer, handleRPTree, handleSearch, handleXlate, handleTransport, handleDiversify, handleConnect, handleMetrics, handleMetrics2, handleGenM, handleGenK, handleGenMetrics]
 
 def step (st : St) (line : String) : St × String :=
   let toks := (line.trimAscii.toString.splitOn " ").filter (· ≠ "")
